@@ -10,6 +10,7 @@ CONSTANTS
   WithEnv = TRUE
   Depth = 5
   GenActs <- ActsCase
+  Shape <- ShapeAny
 INIT GenInit
 NEXT GenNext
 CONSTRAINT Emit
